@@ -230,6 +230,12 @@ func (e *integEngine) checkC08() {
 				return
 			}
 		}
+		for _, name := range sortedKeys(t.VarExtra) {
+			if got := r.Info.Env[name]; r.Info.Block == "cmd" && got != t.VarExtra[name] {
+				c.Violate("C08", "variation-value", "%s, command %s: variation value %s=%q, configured %q (it must not depend on who ran the task before)", where, r.Info.Key, name, got, t.VarExtra[name])
+				return
+			}
+		}
 		// names that only some stage defines
 		for _, g := range e.w.AllGraphs() {
 			for _, o := range g.Stages {
@@ -340,6 +346,16 @@ func GenOverrideWorld(ch *Choices, thorough bool) *IntegWorld {
 	}
 	if ch.Bool(1, 3, "task-dir") {
 		t.Dir = "/vs/taskdir"
+	}
+	if ch.Bool(1, 3, "variations") {
+		// variation values are passed to the commands as they are written
+		t.NVar = 2
+		t.VarExtra = map[string]string{"VS_LIT": "{{.VS_V0}}", "VS_PLAIN": "plain"}
+		for i := 0; i < t.NCmd; i++ {
+			for k := 0; k < 2; k++ {
+				w.Plans[execID("shared", "cmd", i, variationName(k))] = &ExecPlan{DurMS: ch.Choose(80, "dur")}
+			}
+		}
 	}
 	w.Tasks = []*TaskSpec{t}
 	if ch.Bool(1, 3, "named-context") {
